@@ -86,6 +86,9 @@ func (h *harness) abiValue(t abi.Type, name string, valid int) reflect.Value {
 	switch t.T {
 	case abi.UintTy, abi.IntTy:
 		var n *big.Int
+		if f, ok := h.forceUint[name]; ok && t.Size > 64 {
+			return reflect.ValueOf(new(big.Int).Set(f))
+		}
 		if r.Chance(valid) {
 			n = big.NewInt(1 + int64(r.Intn(1000)))
 			if strings.Contains(strings.ToLower(name), "value") {
@@ -112,6 +115,12 @@ func (h *harness) abiValue(t abi.Type, name string, valid int) reflect.Value {
 	case abi.BoolTy:
 		return reflect.ValueOf(r.Chance(50))
 	case abi.AddressTy:
+		if f, ok := h.forceAddr[name]; ok {
+			return reflect.ValueOf(f)
+		}
+		if len(h.tokenAddrs) > 0 && strings.Contains(strings.ToLower(name), "token") && r.Chance(40) {
+			return reflect.ValueOf(h.tokenAddrs[r.Intn(len(h.tokenAddrs))]) // an ERC20 with a registered token pair
+		}
 		switch r.Intn(5) {
 		case 0:
 			return reflect.ValueOf(common.Address{})
@@ -243,6 +252,9 @@ func (h *harness) evmCall(ctx sdk.Context, from common.Address, to common.Addres
 func (h *harness) stagePrecompiles() {
 	caller := h.p.keys[1]
 	h.c.Mint(caller.Acc(), lib.FX(100_000))
+	if pair, ok := h.c.App.Erc20Keeper.GetTokenPair(h.c.Ctx, "FX"); ok {
+		h.tokenAddrs = append(h.tokenAddrs, pair.GetERC20Contract())
+	}
 	methods := h.precompileMethods()
 	h.rep.Count(fmt.Sprintf("precompile ABI methods=%d", len(methods)))
 	for _, pm := range methods {
@@ -322,6 +334,45 @@ func (h *harness) stagePrecompiles() {
 				}
 			}
 			h.forceLen = nil
+		}
+		// deterministic grid: every uint256 argument over {0, 1, 2^255, 2^256-1} (sums/products of two arguments cross 2^256),
+		// every address argument named *token* over the ERC20 contracts that have a registered token pair, rest well-formed
+		var uints, tokArgs []string
+		for _, in := range pm.Method.Inputs {
+			if in.Type.T == abi.UintTy && in.Type.Size == 256 {
+				uints = append(uints, in.Name)
+			}
+			if in.Type.T == abi.AddressTy && strings.Contains(strings.ToLower(in.Name), "token") {
+				tokArgs = append(tokArgs, in.Name)
+			}
+		}
+		if len(uints) >= 2 && len(uints) <= 3 {
+			grid := []*big.Int{big.NewInt(0), big.NewInt(1), two255, two256m1}
+			total := 1
+			for range uints {
+				total *= len(grid)
+			}
+			toks := append([]common.Address{h.p.keys[0].Hex()}, h.tokenAddrs...)
+			for _, tok := range toks {
+				for c := 0; c < total; c++ {
+					h.forceUint = map[string]*big.Int{}
+					h.forceAddr = map[string]common.Address{}
+					for _, a := range tokArgs {
+						h.forceAddr[a] = tok
+					}
+					x := c
+					var desc []string
+					for _, u := range uints {
+						h.forceUint[u] = grid[x%len(grid)]
+						desc = append(desc, fmt.Sprintf("%s=%s", u, short(grid[x%len(grid)].String(), 12)))
+						x /= len(grid)
+					}
+					if args, ok := h.packArgs(pm.Method, 100); ok {
+						one(args, "abi(valid=100%) uint grid "+strings.Join(desc, ",")+" token="+tok.Hex())
+					}
+				}
+			}
+			h.forceUint, h.forceAddr = nil, nil
 		}
 		n := 60 * h.scale
 		for i := 0; i < n; i++ {
